@@ -699,6 +699,34 @@ pub fn dns_bytes_strategy(sz: MsgSize) -> impl Strategy<Value = HexBytes> {
                 v.insert(i, rr);
             }
             let mut b = dns::encode(&m, c);
+            // one input in eight ends in a record whose owner name is assembled through a chain
+            // of pointers, each hop adding a long label: the name passes 255 octets after five
+            // hops (legal messages stop before that; the decoder has to)
+            if let Some((pos0, val0, kind0)) = edits.first() {
+                if (*pos0 ^ *val0 as u16 ^ *kind0 as u16) % 8 == 0 && b.len() + 700 < 16000 {
+                    let hops = 2 + (*val0 as usize % 9);
+                    let mut prev: Option<usize> = None;
+                    let mut start_of_last = 0usize;
+                    for h in 0..hops {
+                        // label of 50 octets, then a pointer to the previous link (or the root)
+                        start_of_last = b.len();
+                        b.push(50);
+                        b.extend(std::iter::repeat(b'a' + h as u8).take(50));
+                        match prev {
+                            Some(p) => b.extend_from_slice(&[0xc0 | (p >> 8) as u8, p as u8]),
+                            None => b.push(0),
+                        }
+                        prev = Some(start_of_last);
+                        // make every link the owner name of a well-formed A record
+                        b.extend_from_slice(&[0, 1, 0, 1, 0, 0, 0, 60, 0, 4, 192, 0, 2, h as u8]);
+                    }
+                    let _ = start_of_last;
+                    let ar = (((b[10] as u16) << 8) | b[11] as u16).wrapping_add(hops as u16);
+                    b[10] = (ar >> 8) as u8;
+                    b[11] = ar as u8;
+                    return HexBytes(b);
+                }
+            }
             for (pos, val, kind) in edits {
                 if b.is_empty() {
                     break;
@@ -857,6 +885,15 @@ impl Prop for C04Trunc {
 }
 
 pub fn run_c14_func(ctx: &Ctx) {
+    // the committed inputs first (every past failure of this property and of C05 on the DNS
+    // decoder, minimised or as found by libFuzzer)
+    if let Ok(dir) = std::fs::read_dir(format!("{}/corpus/dns", VERIF_DIR)) {
+        let mut files: Vec<_> = dir.flatten().map(|e| e.path()).collect();
+        files.sort();
+        let cases: Vec<HexBytes> = files.iter().filter_map(|p| std::fs::read(p).ok()).map(HexBytes).collect();
+        ctx.count_class("bytes:committed-corpus-inputs", cases.len() as u64);
+        run_list(ctx, &C14Bytes, cases);
+    }
     let small = MsgSize {
         min_records: 0,
         max_records: 40,
@@ -913,4 +950,43 @@ pub fn replay(id: &str, sub: &str, case: &serde_json::Value) -> Option<Result<Ou
         ("C04", "truncate") => Some(replay_prop(&C04Trunc, case)),
         _ => None,
     }
+}
+
+
+/// Development aid: shrink a byte input on which C14Bytes fails, keeping the same signature
+/// (greedy chunk removal, then byte simplification).
+pub fn minimise_c14(input: &[u8]) -> Vec<u8> {
+    let sig_of = |b: &[u8]| C14Bytes.check(&HexBytes(b.to_vec())).fail.map(|f| f.sig);
+    let want = match sig_of(input) {
+        Some(s) => s,
+        None => return input.to_vec(),
+    };
+    let mut cur = input.to_vec();
+    let mut chunk = cur.len() / 2;
+    while chunk >= 1 {
+        let mut i = 0;
+        while i + chunk <= cur.len() {
+            let mut cand = cur.clone();
+            cand.drain(i..i + chunk);
+            if sig_of(&cand).as_deref() == Some(want.as_str()) {
+                cur = cand;
+            } else {
+                i += chunk;
+            }
+        }
+        chunk /= 2;
+    }
+    for i in 0..cur.len() {
+        for v in [0u8, 1] {
+            if cur[i] != v {
+                let mut cand = cur.clone();
+                cand[i] = v;
+                if sig_of(&cand).as_deref() == Some(want.as_str()) {
+                    cur = cand;
+                    break;
+                }
+            }
+        }
+    }
+    cur
 }
